@@ -179,8 +179,35 @@ func c14Alphabet(r *gen.Rand, v *spec.Version) []string {
 		add(v.Canonical(e) + "/E:F/RL:OF/RC:C")
 		add(v.Canonical(full) + "/")
 	}
+	// LATE failures on a fully populated state: every metric defined (seeded values, longest values, highest packed
+	// codes), and the defect in the very last element -- whatever a failing call leaves behind in recycled state
+	// (a pooled result object, a scratch record) is as large as it can be
+	{
+		srcs := []string{v.Canonical(full)}
+		lgA := v.ZeroAssign()
+		for m, me := range v.Metrics {
+			lgA[m] = uint8(len(me.Values) - 1)
+		}
+		srcs = append(srcs, v.Canonical(lgA))
+		if cs := cornerAssigns(probe.APIs[v.ID]); len(cs) > 0 {
+			srcs = append(srcs, v.Canonical(cs[0]))
+		}
+		for _, src := range srcs {
+			_, el := gen.SplitElems(v, src)
+			if len(el) == 0 {
+				continue
+			}
+			last := el[len(el)-1]
+			k, _, _ := strings.Cut(last, ":")
+			add(src + "/")
+			add(src + "/XX:N")
+			add(src + "/" + last)
+			add(src[:len(src)-len(last)] + k + ":Z")
+			add(src[:len(src)-len(last)] + k)
+		}
+	}
 	base := v.Canonical(full)
-	for i := 0; len(out) < 44 && i < 400; i++ {
+	for i := 0; len(out) < 60 && i < 400; i++ {
 		m, _ := gen.Mutate(r, v, base)
 		add(m)
 	}
